@@ -1843,6 +1843,9 @@ class Run:
             raise Reject("sorted(reverse=...)")
         if not (isinstance(v, SV) and isinstance(v.ty, T.List)):
             raise Reject("sorted over %r" % (v,))
+        if key is None:
+            # sorted(xs): ordered by the elements' own `<` (their __lt__ contract)
+            key = LambdaVal(ast.parse("lambda _so_x: _so_x", mode="eval").body, dict(self.frames[-1].env), self)
         if not isinstance(key, LambdaVal) or len(key.node.args.args) != 1:
             raise Reject("sorted without a one-argument lambda key")
         t = v.ty
@@ -2763,7 +2766,10 @@ class Run:
         if isinstance(it, SV) and isinstance(it.ty, T.Ref) and it.ty.cls in CLASSES and getattr(CLASSES[it.ty.cls], "iter_field", None):
             # `for x in obj` where obj.__iter__ yields the elements of one list field (declared in the shape)
             fty, z = self.heap.rd(it.z, it.ty.cls, CLASSES[it.ty.cls].iter_field)
-            return self.iter_desc(self.assume_typed(SV(fty, z)))
+            fv = self.assume_typed(SV(fty, z))
+            if isinstance(fty, T.Dict) and getattr(CLASSES[it.ty.cls], "iter_kind", None) == "values":
+                return self.iter_desc(DictView("values", fv))  # __iter__ yields the values of a dict field
+            return self.iter_desc(fv)
         raise Reject("iteration over %r" % (it,))
 
     def loop_spec(self, node):
